@@ -53,6 +53,8 @@ def handle (line : String) : String :=
   | "cdesc" :: args => Driver.PassP.handle "cdesc" args
   | "cdrt" :: args => Driver.PassP.handle "cdrt" args
   | "inltag" :: args => Driver.InlP.handle args
+  | "inlscan" :: args => Driver.InlP.scanHandle args
+  | "cdata" :: args => Driver.InlP.cdataHandle args
   | "mergestyle" :: args => Driver.InlP.mergeHandle args
   | _ => "bad-request"
 
